@@ -31,3 +31,235 @@ META["C06"] = {
     "assumptions": ["Kani 0.68 MIR->goto translation and CBMC 6.11 are sound", "dev-profile MIR of /repo's working tree",
                     "reference predicate c06::spec written from the property statement"],
 }
+
+
+# ------------------------------------------------------------------ C02 ----
+ADC_FUNCS = ["alpha_g_detector::alpha16::<AdcV3Packet as TryFrom<&[u8]>>::try_from",
+             "alpha_g_detector::alpha16::<AdcPacket as TryFrom<&[u8]>>::try_from",
+             "alpha16::BoardId::try_from([u8;6])", "ModuleId/Adc16ChannelId/Adc32ChannelId::try_from(u8)",
+             "AdcV3Packet/AdcPacket accessors"]
+ADC_SHORT = list(range(0, 41))
+ADC_LONG_N = [62, 63, 64, 65, 66, 67]
+for L in ADC_SHORT:
+    wit = ["rejected"] if L != 16 else ["accepted-16", "rejected"]
+    add(name="c02_adc_iff_%d" % L, prop="C02", crate="det", expr="crate::c02::adc_iff::<%d>" % L, unwind=36,
+        cap_s=600, mem_gb=4, witnesses=wit, est_s=10, family="adc_iff", funcs=ADC_FUNCS,
+        sched="always" if L in (0, 15, 16, 17, 35, 36, 37) else "pool",
+        params={"len": L, "content": "all"})
+for n in ADC_LONG_N:
+    for odd in (0, 1):
+        L = 36 + 2 * n + odd
+        wit = ["rejected"]
+        if n >= 64 and not odd:
+            # suppression-on needs n > last_index >= 64
+            wit = ["accepted-suppression-off", "rejected"] + (["accepted-suppression-on"] if n >= 65 else [])
+        add(name="c02_adc_iff_%d" % L, prop="C02", crate="det", expr="crate::c02::adc_iff::<%d>" % L, unwind=n + 4,
+            cap_s=1800, mem_gb=5, witnesses=wit, est_s=200 if not odd else 30, family="adc_iff", funcs=ADC_FUNCS,
+            sched="always" if (n == 64 and odd) else ("thorough" if not odd else "pool"),
+            params={"len": L, "samples": n, "content": "all"})
+for n in (64, 65):
+    L = 36 + 2 * n
+    add(name="c02_adc_iff_sparse_%d" % L, prop="C02", crate="det", expr="crate::c02::adc_iff_sparse::<%d>" % L,
+        unwind=n + 4, cap_s=1800, mem_gb=5, est_s=100, family="adc_iff_sparse", funcs=ADC_FUNCS, sched="always",
+        witnesses=["accepted-suppression-off", "rejected"] + (["accepted-suppression-on"] if n >= 65 else []),
+        params={"len": L, "samples": n, "content": "samples 2..=61 assigned 0, everything else free"})
+# requested_samples assigned around 0,1,2 and n+1,n+2,n+3 (decision-table cells), length 164 (n = 64) and 166 (n = 65)
+for L, n in ((164, 64), (166, 65)):
+    for RS in (0, 1, 2, n + 1, n + 2, n + 3, 65535):
+        wit = ["rejected"]
+        if RS == n + 2:
+            wit.append("accepted-suppression-off")
+        if RS >= n + 2 and n >= 65:
+            wit.append("accepted-suppression-on")
+        add(name="c02_adc_iff_rs_%d_%d" % (L, RS), prop="C02", crate="det",
+            expr="crate::c02::adc_iff_rs::<%d, %d>" % (L, RS), unwind=n + 4, cap_s=1800, mem_gb=5,
+            witnesses=wit, est_s=120, family="adc_iff_rs", funcs=ADC_FUNCS,
+            sched="always" if (L == 164 and RS in (0, 1, n + 2)) else "thorough",
+            params={"len": L, "samples": n, "requested_samples": RS})
+META["C02"] = {
+    "pool_k": 4,
+    "bounds": "slice lengths 0..=40 and 36+2n, 37+2n for n in 62..=67 (160..=171), every content; plus lengths 164/166 with "
+              "requested_samples assigned to {0,1,2,n+1,n+2,n+3,65535}; quick = boundary instances + 4 seeded from the pool, "
+              "thorough = all. Loops: default unwind n+4 (64-sample baseline sum, n-sample collect, 8-board MAC search, memcmp 6)",
+    "outside": "waveforms longer than 67 samples (all further length dependence is the comparison of n with keep_last and "
+               "requested_samples, exercised here on both sides of every threshold)",
+    "assumptions": ["reference predicate c02::spec evaluates the documented ladder in i64", "8 documented Alpha16 MACs frozen in harness/det/src/oracle.rs"],
+}
+
+
+# ------------------------------------------------------------------ C03 ----
+CHUNK_FUNCS = ["alpha_g_detector::padwing::<Chunk as TryFrom<&[u8]>>::try_from", "padwing::BoardId::try_from(u32)",
+               "padwing::AfterId::try_from(u8)", "crc32c::crc32c (bit-serial stand-in under cfg(kani))", "Chunk accessors"]
+# loops that walk the 71-entry board table need 73; everything else is bounded by 16 header bytes / 8 bits
+BOARD_LOOPS = [("BoardId", 73), ("known_device", 73)]
+def valid_k(L):
+    return range(L - 27, L - 23)
+for L in (28, 32):
+    for K in list(valid_k(L)) + [0, L - 28, L - 23, 65535]:
+        if K < 0:
+            continue
+        ok = K in valid_k(L)
+        name = "c03_chunk_iff_%d_%d" % (L, K)
+        if any(i.name == name for i in INSTS):
+            continue
+        add(name=name, prop="C03", crate="det", expr="crate::c03::chunk_iff::<%d, %d>" % (L, K),
+            unwind=18, unwindset=BOARD_LOOPS, cap_s=1800, mem_gb=5, est_s=120, family="chunk_iff", funcs=CHUNK_FUNCS,
+            witnesses=["accepted", "rejected"] if ok else ["rejected"],
+            sched="always" if (L, K) in ((28, 1), (28, 4), (32, 5), (32, 8), (28, 5), (28, 0)) else "pool",
+            params={"len": L, "chunk_length": K, "content": "all other bytes free"})
+
+for L in (36, 40, 48, 64):
+    for K in (L - 27, L - 24, L - 23):
+        ok = K in valid_k(L)
+        add(name="c03_chunk_iff_%d_%d" % (L, K), prop="C03", crate="det", expr="crate::c03::chunk_iff::<%d, %d>" % (L, K),
+            unwind=max(18, L - 20), unwindset=BOARD_LOOPS, cap_s=2400, mem_gb=6, est_s=200, family="chunk_iff",
+            funcs=CHUNK_FUNCS, witnesses=["accepted", "rejected"] if ok else ["rejected"], sched="thorough",
+            params={"len": L, "chunk_length": K, "content": "all other bytes free"})
+import itertools
+FAULT_W = ["base-accepted-and-error-injected"]
+for (L, K) in ((28, 1), (28, 4), (32, 5), (32, 8)):
+    NW = L // 4
+    D = {(28, 1): 0, (28, 4): 35, (32, 5): 70, (32, 8): 68}[(L, K)]
+    quick_shape = (L, K) == (28, 1)
+    for W in range(NW):
+        add(name="c03_fault_word_%d_%d_w%d" % (L, K, W), prop="C03", crate="det",
+            expr="crate::c03::fault_word::<%d, %d, %d, %d>" % (L, K, D, W), unwind=18, unwindset=BOARD_LOOPS,
+            cap_s=1500, mem_gb=4, est_s=80, family="fault_word", funcs=CHUNK_FUNCS, witnesses=FAULT_W,
+            sched="always" if quick_shape else "pool",
+            params={"len": L, "chunk_length": K, "board": D, "word": W, "error": "any non-zero 32-bit pattern in the word"})
+    for OFF in range(8 * L):
+        add(name="c03_fault_burst_%d_%d_o%d" % (L, K, OFF), prop="C03", crate="det",
+            expr="crate::c03::fault_burst::<%d, %d, %d, %d>" % (L, K, D, OFF), unwind=18, unwindset=BOARD_LOOPS,
+            cap_s=1500, mem_gb=4, est_s=80, family="fault_burst", funcs=CHUNK_FUNCS, witnesses=FAULT_W,
+            sched="pool" if (L, K) in ((28, 1), (32, 8)) else "thorough",
+            params={"len": L, "chunk_length": K, "board": D, "first_flipped_bit": OFF, "error": "any burst of <= 32 bits starting there"})
+    if (L, K) in ((28, 1), (32, 8)):
+        for (a, b) in itertools.combinations(range(NW), 2):
+            add(name="c03_fault_w2_%d_%d_w%d_%d" % (L, K, a, b), prop="C03", crate="det",
+                expr="crate::c03::fault_w2::<%d, %d, %d, %d, %d>" % (L, K, D, a, b), unwind=18, unwindset=BOARD_LOOPS,
+                cap_s=1500, mem_gb=4, est_s=80, family="fault_w2", funcs=CHUNK_FUNCS, witnesses=FAULT_W, sched="pool",
+                params={"len": L, "chunk_length": K, "board": D, "words": [a, b], "error": "weight <= 3, both words hit"})
+        for (a, b, c) in itertools.combinations(range(NW), 3):
+            add(name="c03_fault_w3_%d_%d_w%d_%d_%d" % (L, K, a, b, c), prop="C03", crate="det",
+                expr="crate::c03::fault_w3::<%d, %d, %d, %d, %d, %d>" % (L, K, D, a, b, c), unwind=18, unwindset=BOARD_LOOPS,
+                cap_s=1500, mem_gb=4, est_s=80, family="fault_w3", funcs=CHUNK_FUNCS, witnesses=FAULT_W, sched="pool",
+                params={"len": L, "chunk_length": K, "board": D, "words": [a, b, c], "error": "one bit in each word"})
+    add(name="c03_fault_bit_%d_%d" % (L, K), prop="C03", crate="det", expr="crate::c03::fault_bit::<%d, %d, %d>" % (L, K, D),
+        unwind=18, unwindset=BOARD_LOOPS, cap_s=3600, mem_gb=8, est_s=1300, family="fault_bit", funcs=CHUNK_FUNCS,
+        witnesses=FAULT_W, sched="thorough", klass="best",
+        params={"len": L, "chunk_length": K, "board": D, "error": "one bit at a symbolic position"})
+    add(name="c03_crc_accessors_%d_%d" % (L, K), prop="C03", crate="det", expr="crate::c03::chunk_crc_accessors::<%d, %d>" % (L, K),
+        unwind=18, unwindset=BOARD_LOOPS, cap_s=2400, mem_gb=12, est_s=600, family="chunk_crc_accessors", funcs=CHUNK_FUNCS,
+        witnesses=["accepted"], sched="thorough", klass="best",
+        params={"len": L, "chunk_length": K, "clause": "header_crc32c()/payload_crc32c() reproduce the stored words"})
+META["C03"] = {
+    "pool_k": 10,
+    "budget_s": {"thorough": 4 * 3600},
+    "bounds": "chunks of 28 and 32 bytes (payload 1..=8) with every declared length in/around the valid window: accept <=> "
+              "reference predicate incl. both CRC-32C words over bytes 0..16 and 20..len-4, field-wise round trip; thorough adds "
+              "36/40/48/64-byte chunks. Fault detection on accepted 28/32-byte chunks (board fixed per shape, all other bytes "
+              "symbolic): every non-zero pattern inside each aligned word (=> all 1-3 bit flips inside a word), every burst of "
+              "<= 32 bits starting at each bit offset, every weight<=3 error over each pair/triple of words. "
+              "Loops: default 18, 71-entry board table loops 73.",
+    "outside": "chunks longer than 64 bytes for acceptance and longer than 32 bytes for fault detection (there the claim rests on "
+               "the acceptance clause plus the published Hamming-distance/burst properties of CRC-32C, cited not proved)",
+    "assumptions": ["crc32c::crc32c computes CRC-32C (bit-serial stand-in under cfg(kani), validated natively against the real crate in setup)",
+                    "fault harnesses assume the unflipped chunk is accepted and fix its device id to one documented board per shape"],
+}
+
+
+# ------------------------------------------------------------------ C05 ----
+PWB_FUNCS = ["alpha_g_detector::padwing::<PwbV2Packet as TryFrom<&[u8]>>::try_from", "<PwbPacket as TryFrom<&[u8]>>::try_from",
+             "padwing::BoardId::try_from([u8;6])", "padwing::ChannelId::try_from(u16)", "AfterId::try_from(char)",
+             "Compression/Trigger::try_from(u8)", "PwbV2Packet accessors incl. waveform_at"]
+PWB_LOOPS = [("BoardId", 73), ("known_mac", 73), ("c05::spec", 81), ("list_matches_mask", 81), ("pwb_iff_body", 81),
+             ("c05::shape", 22), ("memcmp", 8)]
+def bpc(rs):
+    return 4 + 2 * rs + (2 if rs % 2 else 0)
+def pwb(name, L, s0, s1, t, rs, sched, wit, est=100, nochan=False):
+    if nochan:
+        expr = "crate::c05::pwb_iff_nochan::<%d, %d>" % (L, t)
+    else:
+        expr = "crate::c05::pwb_iff::<%d, %d, %d, %d, %d>" % (L, s0, s1, t, rs)
+    add(name=name, prop="C05", crate="det", expr=expr, unwind=16, unwindset=PWB_LOOPS, cap_s=2400, mem_gb=6, est_s=est,
+        family="pwb_iff", funcs=PWB_FUNCS, witnesses=wit, sched=sched,
+        params={"len": L, "sent_bits": [x for x in (s0, s1) if x >= 0], "over_threshold": {-1: "none", -2: "same as sent"}.get(t, t),
+                "requested_samples": "symbolic" if nochan else rs})
+AR = ["accepted", "rejected"]
+R = ["rejected"]
+# no channel: requested_samples/last_sca_cell symbolic
+pwb("c05_nochan_56", 56, -1, -1, -1, 0, "always", AR, nochan=True)
+pwb("c05_nochan_56_t5", 56, -1, -1, 5, 0, "always", AR, nochan=True)
+pwb("c05_nochan_56_t79", 56, -1, -1, 79, 0, "always", R, nochan=True)
+pwb("c05_nochan_58", 58, -1, -1, -1, 0, "always", R, nochan=True)
+pwb("c05_nochan_60", 60, -1, -1, -1, 0, "pool", R, nochan=True)
+# one channel
+for s0 in range(79):
+    for rs in (0, 1, 2, 3):
+        L = 56 + bpc(rs)
+        boundary = s0 in (0, 2, 3, 15, 16, 28, 29, 53, 54, 66, 67, 78)
+        pwb("c05_one_s%d_rs%d" % (s0, rs), L, s0, -1, -2 if (s0 + rs) % 2 else -1, rs,
+            "always" if (s0, rs) in ((0, 2), (16, 1), (78, 3)) else ("pool" if boundary or rs in (1, 2) else "thorough"), AR)
+# bit 79
+pwb("c05_one_s79_rs2", 56 + bpc(2), 79, -1, -1, 2, "always", R)
+pwb("c05_one_s10_t79_rs2", 56 + bpc(2), 10, -1, 79, 2, "pool", R)
+# missing / left-over bytes
+pwb("c05_one_s10_rs2_short", 56 + bpc(2) - 2, 10, -1, -1, 2, "always", R)
+pwb("c05_one_s10_rs2_long", 56 + bpc(2) + 2, 10, -1, -1, 2, "pool", R)
+pwb("c05_one_s10_rs512", 56 + bpc(2), 10, -1, -1, 512, "pool", R)
+# pairs
+for (a, b) in ((0, 78), (15, 16), (28, 29), (53, 54), (66, 67), (2, 3), (16, 29), (40, 41)):
+    for rs in (1, 2):
+        pwb("c05_two_s%d_%d_rs%d" % (a, b, rs), 56 + 2 * bpc(rs), a, b, -2 if rs == 1 else a, rs,
+            "thorough", AR, est=1500)
+pwb("c05_two_s0_78_rs3", 56 + 2 * bpc(3), 0, 78, -1, 3, "thorough", AR, est=1800)
+for i in INSTS:
+    if i.name.startswith("c05_two_"):
+        # measured: symbolic execution alone ~12 min, solver needs > 18 GB: best effort, one or two at a time
+        i.klass, i.cap_s, i.mem_gb, i.cap_gb = "best", 5400, 24, 40
+META["C05"] = {
+    "pool_k": 8,
+    "budget_s": {"thorough": 3 * 3600},
+    "bounds": "sent mask: empty, each of the 79 single bits, 8 pairs, bit 79; over-threshold mask: empty / same / one bit / bit 79; "
+              "requested_samples 0..=3 (and fully symbolic together with last_sca_cell in the zero-channel instances, 512 in one); "
+              "slice length exact and +-2; every other byte (version, chip, compression, trigger, MAC, delay, timestamp, reserved, "
+              "counters, block headers, samples, padding, end marker) symbolic. Loops: default 16, 71-board loops 73, 79-bit scans 81.",
+    "outside": "more than 2 sent channels, more than 3 samples per channel (the index arithmetic samples_per_channel*index+2 is "
+               "exercised for index 0 and 1 only)",
+    "assumptions": ["71 documented PadWing MACs and the readout-index table frozen in harness/det/src (oracle.rs, c05.rs)"],
+}
+
+
+# ------------------------------------------------------------------ C01 ----
+# totality: no functional oracle, Kani's own checks (panic/unwrap/index/overflow/unwinding assertion)
+def c01(name, expr, unwind, sched, est=15, unwindset=None, funcs=None, mem=4, cap=900, params=None, crate="det", wit=("rejected",)):
+    add(name=name, prop="C01", crate=crate, expr=expr, unwind=unwind, unwindset=unwindset or [], cap_s=cap, mem_gb=mem,
+        est_s=est, family=name.split("_")[1], funcs=funcs or [], witnesses=list(wit), sched=sched, params=params or {})
+for L in list(range(0, 41)) + list(range(160, 172)):
+    n = max(0, (L - 36) // 2)
+    c01("c01_adc_total_%d" % L, "crate::c02::adc_total::<%d>" % L, max(12, n + 4),
+        "always" if L in (15, 16, 35, 36, 164, 165) else ("pool" if L < 100 else "thorough"),
+        est=10 if L < 100 else 90, funcs=ADC_FUNCS[:2], params={"len": L}, mem=4 if L < 100 else 6, cap=900 if L < 100 else 1800)
+for L in range(0, 97):
+    c01("c01_trg_total_%d" % L, "crate::c06::trg_total::<%d>" % L, 8, "always" if L in (0, 79, 80, 81) else "pool",
+        est=8, funcs=TRG_FUNCS[:2], params={"len": L})
+for L in range(0, 41):
+    c01("c01_chunk_total_free_%d" % L, "crate::c03::chunk_total_free::<%d>" % L, 24, "always" if L in (27, 28, 32) else "pool",
+        est=40 if L >= 28 and L % 4 == 0 else 8, unwindset=BOARD_LOOPS, funcs=CHUNK_FUNCS[:1], params={"len": L, "chunk_length": "symbolic"})
+for L in (28, 32, 36):
+    for K in sorted({0, L - 28, L - 27, L - 24, L - 23, 65535}):
+        if K >= 0:
+            c01("c01_chunk_total_%d_%d" % (L, K), "crate::c03::chunk_total::<%d, %d>" % (L, K), 24, "pool", est=40,
+                unwindset=BOARD_LOOPS, funcs=CHUNK_FUNCS[:1], params={"len": L, "chunk_length": K})
+for L in range(0, 56):
+    c01("c01_pwb_total_free_%d" % L, "crate::c05::pwb_total_free::<%d>" % L, 8, "always" if L in (0, 55) else "pool",
+        est=8, funcs=PWB_FUNCS[:1], params={"len": L})
+PWB_TOTAL_SHAPES = [(56, -1, -1, -1, 0), (56, -1, -1, 78, 511), (56, -1, -1, 79, 512), (58, -1, -1, -1, 65535),
+                    (64, 0, -1, -2, 2), (64, 78, -1, -1, 2), (64, 79, -1, -1, 2), (62, 10, -1, -1, 1), (66, 10, -1, 79, 3),
+                    (60, 15, -1, -2, 0), (62, 10, -1, -1, 2), (66, 10, -1, -1, 2), (64, 10, -1, -1, 512), (64, 10, -1, -1, 65535)]
+for (L, s0, s1, t, rs) in PWB_TOTAL_SHAPES:
+    nm = "c01_pwb_total_%d_%s_%s_%d" % (L, ("s%d" % s0) if s0 >= 0 else "none", ("t%d" % t) if t >= 0 else ("tsame" if t == -2 else "tnone"), rs)
+    c01(nm, "crate::c05::pwb_total::<%d, %d, %d, %d, %d>" % (L, s0, s1, t, rs), 16,
+        "always" if (L, s0, rs) in ((56, -1, 0), (64, 0, 2), (64, 79, 2)) else "pool", est=60,
+        unwindset=[("BoardId", 73), ("c05::shape", 22), ("memcmp", 8)], funcs=PWB_FUNCS[:2],
+        params={"len": L, "sent": s0, "over_threshold": t, "requested_samples": rs}, mem=5, cap=1500)
